@@ -53,8 +53,8 @@ ASSUMPTIONS = [
     'parse runs in, where an invalid member is only logged)',
 ]
 FLOORS = {
-    'quick': {'outcomes': 500, 'set:specificities': 20, 'set:shapes': 300, 'states': 150, 'transitions': 10000, 'validated': 100000},
-    'thorough': {'outcomes': 1000, 'set:specificities': 30, 'set:shapes': 1000, 'states': 1000, 'transitions': 50000, 'validated': 50000},
+    'quick': {'outcomes': 20000, 'set:specificities': 20, 'set:shapes': 2000, 'states': 150, 'transitions': 10000, 'validated': 300000},
+    'thorough': {'outcomes': 100000, 'set:specificities': 30, 'set:shapes': 10000, 'states': 1500, 'transitions': 300000, 'validated': 3000000},
 }
 
 WD = 20.0  # watchdog seconds (wall clock) per context of a case; a healthy one needs ~1 ms, the margin is for a loaded machine
@@ -174,7 +174,7 @@ def bounds(tier):
         'list_menu': [m[0] for m in _menu(tier)],
         'list_subjects': SUBJECTS,
         'list_closure_max_entries': _L(tier),
-        'list_text_max_members': 2 if tier == 'quick' else 3,
+        'list_text_members': 'all lists of <= 2 menu entries (+ empty members) and 8 of 3' + ('' if tier == 'quick' else '; selectorText= in raising mode: all lists of <= 3'),
     }
     return b
 
@@ -529,7 +529,11 @@ def _L(tier):
     return 3 if tier == 'quick' else 4
 
 
-def _list_texts(tier):
+SOME_TRIPLES = [[0, 1, 3], [3, 1, 0], [1, 2, 1], [4, 0, 1], [0, 4, 1], [0, 1, 4], [0, EMPTY, 1], [3, 0, 3]]
+
+
+def _list_texts(tier, full=True):
+    """member lists for `selectorText =`: everything with <= 2 members, some with 3; thorough + full: all with 3"""
     m = range(len(_menu(tier)))
     out = [[EMPTY]]
     for a in m:
@@ -537,8 +541,8 @@ def _list_texts(tier):
         out.append([a, EMPTY])
         for b in m:
             out.append([a, b])
-    if tier == 'quick':
-        out += [[0, 1, 3], [3, 1, 0], [1, 2, 1], [4, 0, 1], [0, 4, 1], [0, 1, 4], [0, EMPTY, 1], [3, 0, 3]]
+    if tier == 'quick' or not full:
+        out += SOME_TRIPLES + ([[EMPTY, 0]] if tier != 'quick' else [])
     else:
         out += [[a, b, c] for a in m for b in m for c in m] + [[0, EMPTY, 1], [EMPTY, 0]]
     return out
@@ -556,12 +560,12 @@ def _ops(tier, subject, length):
             ops.append(['set', i, mi, 'text'])
             if ident is not None:
                 ops.append(['set', i, mi, 'obj'])
-    for lt in _list_texts(tier):
-        ops.append(['text', lt])
-        if subject != 'list':
-            ops.append(['ruletext', lt])
+    ops += [['text', lt] for lt in _list_texts(tier)]
+    if subject != 'list':
+        ops += [['ruletext', lt] for lt in _list_texts(tier, full=False)]
     # the same text operations with the library in its log-only error mode (the mode every parse runs in)
-    ops += [op + ['quiet'] for op in ops if op[0] in ('text', 'ruletext') or (op[0] in ('appendSelector', 'set') and op[-1] == 'text')]
+    short = _list_texts(tier, full=False)
+    ops += [op + ['quiet'] for op in ops if (op[0] in ('text', 'ruletext') and op[1] in short) or (op[0] in ('appendSelector', 'set') and op[-1] == 'text')]
     return ops
 
 
